@@ -59,7 +59,17 @@ _PUNCT = [
     lambda a, b: "%s. %s %s" % (a, b.capitalize(), a), lambda a, b: "%s = %s" % (a, b), lambda a, b: "%s > %s" % (a, b),
     lambda a, b: "100%% %s" % a, lambda a, b: "%s & %s" % (a, b), lambda a, b: "%s #1" % a, lambda a, b: "(%s)" % a, lambda a, b: "%s -- %s" % (a, b),
 ]
-rich_descr = st.builds(lambda f, a, b, dot: f(a, b) + ("." if dot else ""), st.sampled_from(_PUNCT), sentence(1, 3), sentence(1, 3), st.booleans())
+
+
+def third_word_slash(s):
+    """the ad-hoc `Integer/Float ...` type syntax of parse_adhoc_doc_for_typ: a slash inside the THIRD word of a
+    description is a type-hint trigger (found by the thorough tier: 'training input/input' -> Union[input]); such
+    descriptions belong to C08's wild domain, not to the exact-round-trip domain"""
+    w = (s or "").split()
+    return len(w) > 2 and "/" in w[2]
+
+
+rich_descr = st.builds(lambda f, a, b, dot: f(a, b) + ("." if dot else ""), st.sampled_from(_PUNCT), sentence(1, 3), sentence(1, 3), st.booleans()).filter(lambda s: not third_word_slash(s))
 mixed_descr = st.one_of(descr, descr, rich_descr)
 HYPHENATED = ["hyper-parameter", "pre-trained", "look-up", "re-use", "well-known", "on-the-fly", "x-axis", "non-zero"]
 
